@@ -16,6 +16,7 @@ mod c09;
 mod c10;
 mod c11;
 mod c12;
+mod c13;
 mod c14;
 mod c15;
 mod c17;
@@ -49,8 +50,15 @@ fn main() {
 /// Line mode: every line is `<kind> <ints...>`; pure (non-async) handlers.
 fn run_lines() {
     let stdin = std::io::stdin();
-    let stdout = std::io::stdout();
-    let mut out = std::io::BufWriter::new(stdout.lock());
+    // results go to a private copy of stdout; fd 1 itself is pointed at stderr so that anything
+    // the code under test prints (the tripwire worker prints a newline) cannot corrupt the
+    // one-line-per-case protocol, and stdout is never kept locked
+    let mut out = unsafe {
+        use std::os::fd::FromRawFd;
+        let keep = libc::dup(1);
+        libc::dup2(2, 1);
+        std::fs::File::from_raw_fd(keep)
+    };
     for line in stdin.lock().lines() {
         let line = line.expect("stdin");
         let mut t = util::Toks::new(&line);
@@ -77,6 +85,7 @@ fn run_lines() {
             "sub" => c11::sub(&mut t),
             "upd" => c14::upd(&mut t),
             "attach" => c12::attach(&mut t),
+            "restart" => c13::restart(&mut t),
             "schema" => c15::schema(&mut t),
             "authz" => c17::authz(&mut t),
             "ro" => c17::ro(&mut t),
